@@ -131,7 +131,7 @@ static int liberasurecode_rs_vand_min_fragments(void *desc, int *missing_idxs,
     int ret = -1;
 
     for (i = 0; i < (rs_vand_desc->k + rs_vand_desc->m); i++) {
-        if (!(missing_bm & (1 << i))) {
+        if (!(missing_bm & (1ULL << i))) {
             fragments_needed[j] = i;
             j++;
         }
